@@ -63,6 +63,14 @@ Section Wf.
     && inclb N.eqb (state_ids A) (reach_iter (length (au_states A)) A [au_root A])
     && forallb (fun p => existsb (fun s => memb N.eqb p (map fst (a_matches s))) (au_states A)) ids.
 
+  (** every constraint on a transition has as many arguments as its predicate's
+      arity (what Constraint::try_new enforces; a dump carries no such invariant) *)
+  Definition arity_ok (A : automaton K P) : bool :=
+    forallb (fun st => forallb (fun e => match e_cons e with
+                                         | Some c => Nat.eqb (length (cargs c)) (arity D (cpred c))
+                                         | None => true
+                                         end) (a_out st)) (au_states A).
+
   (** an (unverified) rank: longest distance from the root, by relaxation *)
   Definition relax (A : automaton K P) (rk : list (N * nat)) : list (N * nat) :=
     map (fun s =>
